@@ -300,6 +300,46 @@ Example C02_history_example :
   [L_RvOffer 1; L_RvOffer 0; L_RvForward 0; L_RvForward 1; L_Answer 2 502; L_Answer 1 501].
 Proof. reflexivity. Qed.
 
+(* ---- The bridge list FILE (broker/bridge-list.go LoadBridgeInfo; Model/BrokerBridgeList.v, run against the real loader
+   on generated file texts by `broker bload` and by the J installations of the scenarios).
+   The lists the theorems above quantify over come out of this loader. Every line is decoded on its own into a fresh
+   record, so the entry filed for a bridge is a function of ITS line alone: [entry_of_line l] mentions nothing but l, and
+   in the map loaded from ANY file that contains l - whatever precedes it, whatever follows it under other
+   fingerprints - the bridge of l has exactly the address of l. *)
+From Snow Require Import Model.BrokerBridgeList.
+
+Theorem C02_bridge_list_records_independent : forall pre l post m f u,
+  load (pre ++ l :: post) = Some m -> entry_of_line l = Some (f, u) ->
+  (forall l', In l' post -> names f l' = false) ->
+  lookup f m = Some u.
+Proof. exact records_independent. Qed.
+
+(* ... conversely every entry of the loaded map is the entry of one of the lines, *)
+Theorem C02_bridge_list_entries_come_from_lines : forall ls m f u, load ls = Some m -> lookup f m = Some u ->
+  exists l, In l ls /\ entry_of_line l = Some (f, u).
+Proof. exact load_sound. Qed.
+
+(* ... a line whose record has no address member holding a string (absent, or null) files the EMPTY address, *)
+Theorem C02_bridge_list_missing_address_is_empty : forall ms f u,
+  (forall s, ~ In (KAddr, JStr s) ms) -> entry_of_line (Some ms) = Some (f, u) -> u = EMPTY.
+Proof. exact missing_address_is_empty. Qed.
+
+(* ... and the load fails (the list installed before stays in force) exactly when some line does not decode. *)
+Theorem C02_bridge_list_load_fails_iff : forall ls, load ls = None <-> exists l, In l ls /\ entry_of_line l = None.
+Proof. exact load_fails_iff. Qed.
+
+(* non-vacuity, and what the theorem excludes: bridge 7 has a complete record, bridge 9 a record without address.
+   The loader files the empty address for 9; a loader that decodes every line into ONE shared record (a streaming
+   decoder whose target is declared outside the loop) files bridge 7's address for it. *)
+Example C02_bridge_list_example :
+  let a := Some [(KName, JStr 3); (KAddr, JStr 5); (KFp true, JStr 7)] in
+  let b := Some [(KFp true, JStr 9); (KAddr, JNull)] in
+  entry_of_line b = Some (9, EMPTY) /\
+  (exists m, load ([a] ++ b :: []) = Some m /\ lookup 9 m = Some EMPTY /\ lookup 7 m = Some 5) /\
+  (exists m, load_shared [a; b] = Some m /\ lookup 9 m = Some 5) /\
+  load [a; None; b] = None /\ load [a; Some [(KAddr, JStr 5)]] = None /\ load [a; Some [(KFp true, JStr 9); (KUnknown, JStr 1)]] = None.
+Proof. repeat split; try (eexists; repeat split); reflexivity. Qed.
+
 (* The default bridge on the wire (C12's decoder composed with the matching machine): a client poll whose JSON has no
    fingerprint field decodes to the default fingerprint, i.e. to what [fp_of None] stands for. *)
 From Coq Require Import String.
